@@ -1,0 +1,273 @@
+//go:build verif
+
+package internal
+
+import (
+	"context"
+	"encoding/json"
+	"fmt"
+	"net/url"
+	"sort"
+	"strings"
+	"sync"
+	"sync/atomic"
+	"testing"
+	"time"
+
+	"github.com/gotid/god/internal/verifdrv"
+	"github.com/gotid/god/lib/discov"
+	clientv3 "go.etcd.io/etcd/client/v3"
+	"google.golang.org/grpc"
+	"google.golang.org/grpc/resolver"
+)
+
+const verifWait = 5 * time.Second
+
+// ---------------------------------------------------------------- scripted etcd
+// (minimal copy of the fake in lib/discov/internal/verif_driver_test.go: test files cannot be imported)
+
+func verifNew[T any](p **T) *T {
+	v := new(T)
+	*p = v
+	return v
+}
+
+func verifAppendNew[T any](s *[]*T) *T {
+	v := new(T)
+	*s = append(*s, v)
+	return v
+}
+
+type verifWatch struct {
+	ch     chan clientv3.WatchResponse
+	prefix string
+}
+
+type verifEtcd struct {
+	mu      sync.Mutex
+	store   map[string]string
+	rev     int64
+	watches []*verifWatch
+}
+
+func (e *verifEtcd) ActiveConnection() *grpc.ClientConn { return nil }
+func (e *verifEtcd) Close() error                       { return nil }
+func (e *verifEtcd) Ctx() context.Context               { return context.Background() }
+func (e *verifEtcd) Grant(ctx context.Context, ttl int64) (*clientv3.LeaseGrantResponse, error) {
+	return nil, fmt.Errorf("verif: not scripted")
+}
+func (e *verifEtcd) KeepAlive(ctx context.Context, id clientv3.LeaseID) (<-chan *clientv3.LeaseKeepAliveResponse, error) {
+	return nil, fmt.Errorf("verif: not scripted")
+}
+func (e *verifEtcd) Put(ctx context.Context, key, val string, opts ...clientv3.OpOption) (*clientv3.PutResponse, error) {
+	return nil, fmt.Errorf("verif: not scripted")
+}
+func (e *verifEtcd) Revoke(ctx context.Context, id clientv3.LeaseID) (*clientv3.LeaseRevokeResponse, error) {
+	return nil, fmt.Errorf("verif: not scripted")
+}
+
+func (e *verifEtcd) Get(ctx context.Context, key string, opts ...clientv3.OpOption) (*clientv3.GetResponse, error) {
+	e.mu.Lock()
+	defer e.mu.Unlock()
+	var keys []string
+	for k := range e.store {
+		if strings.HasPrefix(k, key) {
+			keys = append(keys, k)
+		}
+	}
+	sort.Strings(keys)
+	resp := &clientv3.GetResponse{}
+	verifNew(&resp.Header).Revision = e.rev
+	for _, k := range keys {
+		kv := verifAppendNew(&resp.Kvs)
+		kv.Key = []byte(k)
+		kv.Value = []byte(e.store[k])
+	}
+	return resp, nil
+}
+
+func (e *verifEtcd) Watch(ctx context.Context, key string, opts ...clientv3.OpOption) clientv3.WatchChan {
+	w := &verifWatch{ch: make(chan clientv3.WatchResponse), prefix: key}
+	e.mu.Lock()
+	e.watches = append(e.watches, w)
+	e.mu.Unlock()
+	return w.ch
+}
+
+func (e *verifEtcd) streams() []*verifWatch {
+	e.mu.Lock()
+	defer e.mu.Unlock()
+	return append([]*verifWatch(nil), e.watches...)
+}
+
+func (w *verifWatch) send(r clientv3.WatchResponse) bool {
+	select {
+	case w.ch <- r:
+		return true
+	case <-time.After(verifWait):
+		return false
+	}
+}
+
+// apply changes the store and, when delivered, pushes the event through every open stream of the prefix;
+// the empty response that follows is taken only after the event has been handled.
+func (e *verifEtcd) apply(ev verifEvent) string {
+	e.mu.Lock()
+	_, present := e.store[ev.K]
+	var pe *clientv3.Event
+	if ev.T == "put" {
+		e.rev++
+		e.store[ev.K] = ev.V
+		pe = &clientv3.Event{Type: clientv3.EventTypePut}
+		kv := verifNew(&pe.Kv)
+		kv.Key, kv.Value, kv.ModRevision = []byte(ev.K), []byte(ev.V), e.rev
+	} else if ev.T == "del" && present {
+		e.rev++
+		delete(e.store, ev.K)
+		pe = &clientv3.Event{Type: clientv3.EventTypeDelete}
+		kv := verifNew(&pe.Kv)
+		kv.Key, kv.ModRevision = []byte(ev.K), e.rev
+	}
+	e.mu.Unlock()
+	if pe == nil || !ev.D {
+		return ""
+	}
+	for _, w := range e.streams() {
+		if !strings.HasPrefix(ev.K, w.prefix) {
+			continue
+		}
+		if !w.send(clientv3.WatchResponse{Events: []*clientv3.Event{pe}}) || !w.send(clientv3.WatchResponse{}) {
+			return "watch stream not read"
+		}
+	}
+	return ""
+}
+
+// ---------------------------------------------------------------- recording ClientConn
+
+type verifCC struct {
+	resolver.ClientConn // the other methods are not used by discovBuilder
+	mu                  sync.Mutex
+	states              [][]string    // addresses of every UpdateState, in the order the calls were entered
+	entered             chan struct{} // closed when the first call has been entered
+	release             chan struct{} // the first call returns once this is closed
+}
+
+func (c *verifCC) UpdateState(s resolver.State) error {
+	addrs := []string{}
+	for _, a := range s.Addresses {
+		addrs = append(addrs, a.Addr)
+	}
+	sort.Strings(addrs)
+	c.mu.Lock()
+	first := len(c.states) == 0
+	c.states = append(c.states, addrs)
+	c.mu.Unlock()
+	if first {
+		close(c.entered)
+		<-c.release
+	}
+	return nil
+}
+
+// ---------------------------------------------------------------- cases
+
+type verifEvent struct {
+	T string `json:"t"` // put | del
+	K string `json:"k"`
+	V string `json:"v"`
+	D bool   `json:"d"`
+}
+
+type verifCase struct {
+	Prefix string       `json:"prefix"`
+	Pre    []verifEvent `json:"pre"`    // before Build (nothing is watching yet)
+	During []verifEvent `json:"during"` // while Build's first UpdateState is in progress
+	Post   []verifEvent `json:"post"`   // after Build has returned
+}
+
+var verifSeq int64
+
+// TestVerifDriver builds the discov resolver on a scripted etcd and records what the ClientConn is told.
+func TestVerifDriver(t *testing.T) {
+	verifdrv.Run(t, func(raw json.RawMessage) any {
+		var cs verifCase
+		if err := json.Unmarshal(raw, &cs); err != nil {
+			return map[string]any{"error": err.Error()}
+		}
+		id := atomic.AddInt64(&verifSeq, 1)
+		host := fmt.Sprintf("verif-res-%d:2379", id)
+		etcd := &verifEtcd{store: map[string]string{}, rev: 1}
+		discov.VerifSetClient([]string{host}, etcd)
+		stuck := ""
+		for _, ev := range cs.Pre {
+			etcd.apply(ev)
+		}
+		cc := &verifCC{entered: make(chan struct{}), release: make(chan struct{})}
+		u, err := url.Parse("discov://" + host + "/" + cs.Prefix)
+		if err != nil {
+			return map[string]any{"error": err.Error()}
+		}
+		built := make(chan error, 1)
+		go func() {
+			var b discovBuilder
+			_, err := b.Build(resolver.Target{URL: *u}, cc, resolver.BuildOptions{})
+			built <- err
+		}()
+		gated := false
+		select {
+		case <-cc.entered:
+			gated = true
+		case err := <-built: // Build returned without telling the ClientConn anything
+			if err != nil {
+				stuck = "build: " + err.Error()
+			}
+			built <- err
+		case <-time.After(verifWait):
+			stuck = "build does not reach UpdateState"
+		}
+		// the stream opened by the subscription (after its snapshot) must exist before events can be delivered
+		deadline := time.Now().Add(verifWait)
+		for stuck == "" && len(etcd.streams()) == 0 {
+			if time.Now().After(deadline) {
+				stuck = "no watch stream"
+			}
+			time.Sleep(50 * time.Microsecond)
+		}
+		if stuck == "" {
+			for _, ev := range cs.During {
+				if s := etcd.apply(ev); s != "" {
+					stuck = s
+					break
+				}
+			}
+		}
+		cc.mu.Lock()
+		atRelease := len(cc.states)
+		cc.mu.Unlock()
+		close(cc.release)
+		if stuck == "" {
+			select {
+			case err := <-built:
+				if err != nil {
+					stuck = "build: " + err.Error()
+				}
+			case <-time.After(verifWait):
+				stuck = "build does not return"
+			}
+		}
+		if stuck == "" {
+			for _, ev := range cs.Post {
+				if s := etcd.apply(ev); s != "" {
+					stuck = s
+					break
+				}
+			}
+		}
+		cc.mu.Lock()
+		states := append([][]string{}, cc.states...)
+		cc.mu.Unlock()
+		return map[string]any{"states": states, "gated": gated, "at_release": atRelease, "stuck": stuck,
+			"streams": len(etcd.streams())}
+	})
+}
